@@ -22,8 +22,9 @@
    adds the generated producers as the trigger environment (C03).
 
    WHAT REMAINS HAND-WRITTEN between the generated pieces (and is therefore assumed, not derived from source):
-     (a) the vocabulary [Sched.op] of histories, the initial state [Sched.init] (`AsyncScheduler.__init__`,
-         `JobBuilder.__init__`, `InMemoryStore.__init__` are not translated), the clock ([OAdvance]: both clocks move
+     (a) the vocabulary [Sched.op] of histories, the initial state [Sched.init] (since the third session tied to the
+         generated `AsyncScheduler.__init__` / `InMemoryStore.__init__` in GenInitEq.v: [gen_system_from_generated_init];
+         `JobBuilder.__init__` is not translated), the clock ([OAdvance]: both clocks move
          together, nothing else happens) and the operation counter [opi] (bookkeeping of the log);
      (b) the event loop: the armed TimerHandle [timer g = Some w] fires `run_jobs` when [w <= now g] ([OWake]), or
          although its time is not reached ([OEarlyWake]); with no armed handle nothing happens.  That firing rule is
